@@ -10,6 +10,7 @@ import (
 	"os"
 	"sort"
 	"strings"
+	"sync"
 	"testing"
 	"testing/synctest"
 	"time"
@@ -61,6 +62,7 @@ type relayCfg struct {
 	hasAuth                                 bool
 	listenerV6                              bool
 	authOverride                            AuthHandler
+	stream                                  bool // the clients reach the server over a stream listener (TCP/TLS framing)
 }
 
 type relayWorld struct {
@@ -70,7 +72,11 @@ type relayWorld struct {
 	net     *verifsim.SimNet
 	srv     *Server
 	srvConn *verifsim.SimPacketConn
+	srvLn   *verifsim.SimListener
+	srvAddr net.Addr
+	streams map[string]*relayStream
 	nextPort int // 0 = generator fails
+	lifeMu   sync.Mutex
 	tokenIDs map[string]int
 	tokens   []string       // id-1 -> token string
 	tokenPort map[int]int   // token id -> even port it was minted for
@@ -117,8 +123,15 @@ func (w *relayWorld) policyGo() PermissionHandler {
 		return func(_ net.Addr, ip net.IP) bool { return !ip.Equal(w.peers[1].IP) }
 	case 2:
 		return func(c net.Addr, ip net.IP) bool {
-			u, _ := c.(*net.UDPAddr)
-			return !(u != nil && u.IP.Equal(w.clients[0].IP) && u.Port == w.clients[0].Port && ip.Equal(w.peers[0].IP))
+			var cip net.IP
+			cport := 0
+			switch u := c.(type) {
+			case *net.UDPAddr:
+				cip, cport = u.IP, u.Port
+			case *net.TCPAddr:
+				cip, cport = u.IP, u.Port
+			}
+			return !(cip != nil && cip.Equal(w.clients[0].IP) && cport == w.clients[0].Port && ip.Equal(w.peers[0].IP))
 		}
 	}
 	return nil
@@ -200,25 +213,34 @@ func newRelayWorld(t *testing.T, rng *verifsim.RNG, cfg relayCfg) *relayWorld {
 	if err != nil {
 		t.Fatal(err)
 	}
+	w.srvAddr = w.srvConn.LocalAddr()
+	w.streams = map[string]*relayStream{}
+	if cfg.stream {
+		w.srvAddr = &net.TCPAddr{IP: sip, Port: 3478}
+		w.srvLn, err = w.net.NewListener(w.srvAddr)
+		if err != nil {
+			t.Fatal(err)
+		}
+	}
 	client := func(a net.Addr) string { return coqNetAddr(a) }
 	eh := EventHandler{
 		OnAllocationCreated: func(src, _ net.Addr, _, user, _ string, relay net.Addr, _ int) {
-			w.life = append(w.life, fmt.Sprintf("Life (LAllocCreated %s %s %s)", client(src), strings.TrimPrefix(user, "uid"), coqNetAddr(relay)))
+			w.addLife(fmt.Sprintf("Life (LAllocCreated %s %s %s)", client(src), strings.TrimPrefix(user, "uid"), coqNetAddr(relay)))
 		},
 		OnAllocationDeleted: func(src, _ net.Addr, _, user, _ string) {
-			w.life = append(w.life, fmt.Sprintf("Life (LAllocDeleted %s %s)", client(src), strings.TrimPrefix(user, "uid")))
+			w.addLife(fmt.Sprintf("Life (LAllocDeleted %s %s)", client(src), strings.TrimPrefix(user, "uid")))
 		},
 		OnPermissionCreated: func(src, _ net.Addr, _, _, _ string, _ net.Addr, peer net.IP) {
-			w.life = append(w.life, fmt.Sprintf("Life (LPermCreated %s %s)", client(src), coqIP(peer)))
+			w.addLife(fmt.Sprintf("Life (LPermCreated %s %s)", client(src), coqIP(peer)))
 		},
 		OnPermissionDeleted: func(src, _ net.Addr, _, _, _ string, _ net.Addr, peer net.IP) {
-			w.life = append(w.life, fmt.Sprintf("Life (LPermDeleted %s %s)", client(src), coqIP(peer)))
+			w.addLife(fmt.Sprintf("Life (LPermDeleted %s %s)", client(src), coqIP(peer)))
 		},
 		OnChannelCreated: func(src, _ net.Addr, _, _, _ string, _, peer net.Addr, n uint16) {
-			w.life = append(w.life, fmt.Sprintf("Life (LChanCreated %s %s %d)", client(src), coqNetAddr(peer), n))
+			w.addLife(fmt.Sprintf("Life (LChanCreated %s %s %d)", client(src), coqNetAddr(peer), n))
 		},
 		OnChannelDeleted: func(src, _ net.Addr, _, _, _ string, _, peer net.Addr, n uint16) {
-			w.life = append(w.life, fmt.Sprintf("Life (LChanDeleted %s %s %d)", client(src), coqNetAddr(peer), n))
+			w.addLife(fmt.Sprintf("Life (LChanDeleted %s %s %d)", client(src), coqNetAddr(peer), n))
 		},
 	}
 	var auth AuthHandler
@@ -241,8 +263,15 @@ func newRelayWorld(t *testing.T, rng *verifsim.RNG, cfg relayCfg) *relayWorld {
 	}
 	lf := logging.NewDefaultLoggerFactory()
 	lf.DefaultLogLevel = logging.LogLevelDisabled
+	pcs := []PacketConnConfig{{PacketConn: w.srvConn, RelayAddressGenerator: &relayGen{w}, PermissionHandler: w.policyGo()}}
+	var lcs []ListenerConfig
+	if cfg.stream {
+		pcs = nil
+		lcs = []ListenerConfig{{Listener: w.srvLn, RelayAddressGenerator: &relayGen{w}, PermissionHandler: w.policyGo()}}
+	}
 	w.srv, err = NewServer(ServerConfig{
-		PacketConnConfigs:   []PacketConnConfig{{PacketConn: w.srvConn, RelayAddressGenerator: &relayGen{w}, PermissionHandler: w.policyGo()}},
+		PacketConnConfigs:   pcs,
+		ListenerConfigs:     lcs,
 		Realm:               "realm1",
 		AuthHandler:         auth,
 		QuotaHandler:        quota,
@@ -407,7 +436,7 @@ func (w *relayWorld) listing() string {
 	am := w.srv.allocationManagers[0]
 	n := 0
 	for _, c := range w.clients {
-		a := am.GetAllocation(&allocation.FiveTuple{SrcAddr: c, DstAddr: w.srvConn.LocalAddr(), Protocol: allocation.UDP})
+		a := am.GetAllocation(w.ft(c))
 		if a == nil {
 			continue
 		}
@@ -432,6 +461,20 @@ func (w *relayWorld) listing() string {
 }
 
 // settle lets the server finish, then records the step.
+func (w *relayWorld) addLife(s string) {
+	w.lifeMu.Lock()
+	w.life = append(w.life, s)
+	w.lifeMu.Unlock()
+}
+
+func (w *relayWorld) takeLife() []string {
+	w.lifeMu.Lock()
+	defer w.lifeMu.Unlock()
+	l := w.life
+	w.life = nil
+	return l
+}
+
 // tokenID numbers the reservation tokens the server mints in order of first appearance
 func (w *relayWorld) tokenID(tok string) int {
 	if id, ok := w.tokenIDs[tok]; ok {
@@ -454,11 +497,10 @@ func (w *relayWorld) settle(evTerm string) []string {
 func (w *relayWorld) settleWith(evTermOf func(acts []string) string) []string {
 	synctest.Wait()
 	var acts []string
-	acts = append(acts, w.life...)
-	w.life = nil
+	acts = append(acts, w.takeLife()...)
 	var toClient, toPeer []string
-	for _, o := range w.net.Drain() {
-		if o.From.String() == w.srvConn.LocalAddr().String() {
+	for _, o := range append(w.streamReplies(), w.net.Drain()...) {
+		if o.From.String() == w.srvAddr.String() {
 			toClient = append(toClient, w.decodeToClient(o))
 		} else {
 			toPeer = append(toPeer, fmt.Sprintf("ToPeer %s %s %s", coqNetAddr(o.From), coqNetAddr(o.To), coqData(o.Data, w.lastPlen, w.lastSeed)))
@@ -561,8 +603,106 @@ func (w *relayWorld) credSetters(c credSpec) []stun.Setter {
 	return s
 }
 
+// relayStream is one client's control connection in stream mode
+type relayStream struct {
+	mine, theirs *verifsim.SimStream
+	seen         int // bytes of theirs.Written already turned into replies
+}
+
+func (w *relayWorld) streamOf(from *net.UDPAddr) *relayStream {
+	k := from.String()
+	if st, ok := w.streams[k]; ok {
+		return st
+	}
+	mine, theirs := verifsim.NewStreamPair(&net.TCPAddr{IP: from.IP, Port: from.Port}, w.srvAddr)
+	st := &relayStream{mine: mine, theirs: theirs}
+	w.streams[k] = st
+	w.srvLn.Inject(theirs)
+	go func() { // the client reads and forgets; the harness looks at what the server wrote
+		buf := make([]byte, 4096)
+		for {
+			if _, err := mine.Read(buf); err != nil {
+				return
+			}
+		}
+	}()
+	synctest.Wait()
+	return st
+}
+
 func (w *relayWorld) sendToServer(from *net.UDPAddr, raw []byte) {
-	w.srvConn.Inject(&net.UDPAddr{IP: from.IP, Port: from.Port}, raw)
+	if !w.cfg.stream {
+		w.srvConn.Inject(&net.UDPAddr{IP: from.IP, Port: from.Port}, raw)
+		return
+	}
+	// over a stream: the frame (ChannelData padded to four bytes) reaches the server in one to three segments
+	st := w.streamOf(from)
+	frame := append([]byte{}, raw...)
+	if proto.IsChannelData(frame) {
+		for len(frame)%4 != 0 {
+			frame = append(frame, 0)
+		}
+	}
+	cuts := []int{}
+	if len(frame) > 1 && w.rng.Chance(60) {
+		cuts = append(cuts, 1+w.rng.Intn(len(frame)-1))
+		if w.rng.Chance(40) {
+			c2 := 1 + w.rng.Intn(len(frame)-1)
+			if c2 > cuts[0] {
+				cuts = append(cuts, c2)
+			}
+		}
+	}
+	prev := 0
+	for _, c := range append(cuts, len(frame)) {
+		_, _ = st.mine.Write(frame[prev:c])
+		prev = c
+		synctest.Wait()
+	}
+	w.stats["stream-segments"] += len(cuts) + 1
+}
+
+// streamReplies turns what the server wrote on the control connections since the last call into datagrams
+func (w *relayWorld) streamReplies() []verifsim.Outgoing {
+	var out []verifsim.Outgoing
+	for _, c := range w.clients {
+		st, ok := w.streams[c.String()]
+		if !ok {
+			continue
+		}
+		all := st.theirs.WrittenCopy()
+		for st.seen+4 <= len(all) {
+			b := all[st.seen:]
+			n := 20 + int(b[2])<<8 + int(b[3])
+			if proto.IsChannelData(b) {
+				n = 4 + int(b[2])<<8 + int(b[3])
+				pad := (4 - n%4) % 4
+				if st.seen+n+pad > len(all) {
+					break
+				}
+				out = append(out, verifsim.Outgoing{From: w.srvAddr, To: c, Data: append([]byte{}, b[:n+pad]...)})
+				st.seen += n + pad
+				continue
+			}
+			if st.seen+n > len(all) {
+				break
+			}
+			out = append(out, verifsim.Outgoing{From: w.srvAddr, To: c, Data: append([]byte{}, b[:n]...)})
+			st.seen += n
+		}
+	}
+	return out
+}
+
+// ft is the 5-tuple under which the server knows client c
+func (w *relayWorld) ft(c *net.UDPAddr) *allocation.FiveTuple {
+	if w.cfg.stream {
+		// the server files every control connection under "UDP", whatever the listener
+		return &allocation.FiveTuple{SrcAddr: &net.TCPAddr{IP: c.IP, Port: c.Port}, DstAddr: w.srvAddr, Protocol: allocation.UDP}
+	}
+	ft := allocation.FiveTuple{SrcAddr: c, DstAddr: w.srvConn.LocalAddr()}
+	ft.Protocol = allocation.UDP
+	return &ft
 }
 
 func (w *relayWorld) buildAndSend(from *net.UDPAddr, c credSpec, setters []stun.Setter) {
@@ -1020,7 +1160,7 @@ func (w *relayWorld) portFree(p int) bool {
 
 func (w *relayWorld) bindingsOf(ci int) []*allocation.ChannelBind {
 	am := w.srv.allocationManagers[0]
-	a := am.GetAllocation(&allocation.FiveTuple{SrcAddr: w.clients[ci], DstAddr: w.srvConn.LocalAddr(), Protocol: allocation.UDP})
+	a := am.GetAllocation(w.ft(w.clients[ci]))
 	if a == nil {
 		return nil
 	}
@@ -1031,7 +1171,7 @@ func (w *relayWorld) bindingsOf(ci int) []*allocation.ChannelBind {
 // permissions and bindings for, the same IPs on another port, and every channel number in the pool.
 func (w *relayWorld) probeBurst(ci int) {
 	am := w.srv.allocationManagers[0]
-	a := am.GetAllocation(&allocation.FiveTuple{SrcAddr: w.clients[ci], DstAddr: w.srvConn.LocalAddr(), Protocol: allocation.UDP})
+	a := am.GetAllocation(w.ft(w.clients[ci]))
 	if a == nil {
 		return
 	}
@@ -1224,7 +1364,7 @@ func (w *relayWorld) template(k int, ports []int) {
 
 func (w *relayWorld) isLive(ci int) bool {
 	am := w.srv.allocationManagers[0]
-	return am.GetAllocation(&allocation.FiveTuple{SrcAddr: w.clients[ci], DstAddr: w.srvConn.LocalAddr(), Protocol: allocation.UDP}) != nil
+	return am.GetAllocation(w.ft(w.clients[ci])) != nil
 }
 
 func (w *relayWorld) liveClients() (out []int) {
@@ -1239,7 +1379,7 @@ func (w *relayWorld) liveClients() (out []int) {
 func (w *relayWorld) liveRelays() (out []*net.UDPAddr) {
 	am := w.srv.allocationManagers[0]
 	for _, c := range w.clients {
-		if a := am.GetAllocation(&allocation.FiveTuple{SrcAddr: c, DstAddr: w.srvConn.LocalAddr(), Protocol: allocation.UDP}); a != nil {
+		if a := am.GetAllocation(w.ft(c)); a != nil {
 			if u, ok := a.RelayAddr.(*net.UDPAddr); ok {
 				out = append(out, u)
 			}
@@ -1295,6 +1435,9 @@ func runRelayHistory(t *testing.T, rng *verifsim.RNG, prop string, nEvents int) 
 	}
 	if prop == "C05" || rng.Chance(15) {
 		cfg.mtu = verifsim.Pick(rng, []int{0, 512, 1600, 4096, 70000})
+	}
+	if (prop == "C05" && rng.Chance(35)) || (prop != "C05" && rng.Chance(8)) {
+		cfg.stream = true // TCP/TLS framing between client and server, requests arriving in segments
 	}
 	synctest.Test(t, func(t *testing.T) {
 		w := newRelayWorld(t, rng, cfg)
@@ -1464,6 +1607,10 @@ func runRelayHistory(t *testing.T, rng *verifsim.RNG, prop string, nEvents int) 
 			}
 		}
 		term, nontrivial, stats = w.term(), w.nontrivial, w.stats
+		for _, st := range w.streams {
+			_ = st.mine.Close()
+			_ = st.theirs.Close()
+		}
 		_ = w.srv.Close()
 		synctest.Wait()
 	})
